@@ -305,12 +305,14 @@ func HasValidSignatures(hash []byte, signatures []string, Nsigs int, pubkeys []*
 			continue
 		}
 
-		for i, pubkey := range pubkeysCopy {
+		for _, pubkey := range pubkeysCopy {
 			if sig.Verify(hash, pubkey) {
 				validSignatures++
-				if len(pubkeysCopy) > 1 {
-					pubkeysCopy = slices.Delete(pubkeysCopy, i, i+1)
-				}
+				// a key only counts once, however many times it is listed
+				// and however many signatures it provides
+				pubkeysCopy = slices.DeleteFunc(pubkeysCopy, func(key *btcec.PublicKey) bool {
+					return key.IsEqual(pubkey)
+				})
 				break
 			}
 		}
